@@ -12,10 +12,16 @@ def main(tier):
     ]
     if tier == 'quick':
         runs = [('MC_C01_comb', {'MaxNodes': 4, 'MaxCompounds': 2}, 'comb4x2'),
-                ('MC_C01_comb', {'MaxNodes': 3, 'MaxCompounds': 3}, 'comb3x3')]
+                ('MC_C01_comb', {'MaxNodes': 3, 'MaxCompounds': 3}, 'comb3x3'),
+                ('MC_C01_attr', {'MaxElems': 1}, 'attr1'),
+                ('MC_C01_logic', {'MaxNodes': 4, 'Nest': 2}, 'logic4'),
+                ('MC_C01_struct', {'MaxNodes': 3}, 'struct3')]
     else:
         runs = [('MC_C01_comb', {'MaxNodes': 5, 'MaxCompounds': 2}, 'comb5x2'),
-                ('MC_C01_comb', {'MaxNodes': 4, 'MaxCompounds': 3}, 'comb4x3')]
+                ('MC_C01_comb', {'MaxNodes': 4, 'MaxCompounds': 3}, 'comb4x3'),
+                ('MC_C01_attr', {'MaxElems': 2}, 'attr2'),
+                ('MC_C01_logic', {'MaxNodes': 5, 'Nest': 2}, 'logic5'),
+                ('MC_C01_struct', {'MaxNodes': 4}, 'struct4')]
     for module, consts, label in runs:
         replay.run_cfg(chk, module, consts, label)
     return chk.finish()
